@@ -40,6 +40,8 @@ package builder
 
 //@ func data/builder.sizedStore
 //@ prop C11
+//@ at call data/builder.wrappedLinkSystem#1 assert wraps-the-callers-link-system: callee_ls == ls
+//@ at call (*github.com/ipld/go-ipld-prime/linking.LinkSystem).Store#1 assert stores-this-node-under-this-prototype: callee_lp == lp && callee_n == n
 //@ ensures size-is-the-stored-blocks-length: err == nil ==> result1 == blockLen(result0)
 //@ assumed size-is-the-stored-blocks-length
 //@ ensures write-failure-is-recorded: storeFailed <==> (old(storeFailed) || err != nil)
@@ -248,6 +250,19 @@ package builder
 //@ domain not-wrapping-itself: bc.w != bc
 //@ ensures every-write-is-forwarded-unchanged: hinput(bc.w) == ite(old(hinput(bc.w)) == "", str(p), cat(old(hinput(bc.w)), str(p)))
 //@ at return ghost hinput(bc) = ite(hinput(bc) == "", str(p), cat(hinput(bc), str(p)))
+//@ ensures counts-every-byte-written: bc.bc == old(bc.bc) + len(p)
+
+// C11: the size a store reports is what the encoder wrote: the wrapped link system differs from the
+// caller's only in its encoder, that encoder writes the block through a byte counter that starts at
+// zero and sits in front of the real writer, and the count handed to the callback is that
+// counter's total (only when encoding succeeded).
+//@ func data/builder.wrappedLinkSystem
+//@ prop C11 C16
+//@ ensures same-store-same-hasher: result != nil && fresh(result) && result.StorageWriteOpener == ls.StorageWriteOpener && result.StorageReadOpener == ls.StorageReadOpener && result.HasherChooser == ls.HasherChooser && result.DecoderChooser == ls.DecoderChooser && result.TrustedStorage == ls.TrustedStorage
+//@ func data/builder.wrappedLinkSystem$1$1
+//@ prop C11
+//@ at call dynamic#1 assert encodes-this-node-through-a-fresh-counter-in-front-of-the-real-writer: callee_a0 == node && callee_a1 == bc && bc.w == writer && bc.bc == 0
+//@ at call dynamic#2 assert reports-the-counters-total: callee_byteCount == bc.bc && err == nil
 
 // C02 / C08: every shard block carries its bitmap in the UnixFS Data field, also when no bucket is
 // occupied (the reader refuses a shard without it).
